@@ -886,16 +886,30 @@ def replay_case(doc: Dict[str, Any]) -> int:
     root_s, root_ts = gx.roots(KEY_WINDOW)
     A_np = np.asarray(actions)
     if kind == "reset-mode":
-        idx = [KEY_WINDOW.index(k) for k in r["keys"]]
-        exp = (t_index(root_s, np.array(idx)), t_index(root_ts, np.array(idx)))
-        if r["mode"] == "vmap":
-            got = canon(jax.jit(jax.vmap(env.reset))(jnp.stack([prng(k) for k in r["keys"]])))
-            return _show(f"vmap(reset) batch {r['keys']}", leaf_diff(exp, got))
-        exp = tmap(lambda x: x[0], exp)
-        if r["mode"] == "jit":
-            return _show(f"jit(reset)({r['keys'][0]})", leaf_diff(exp, canon(jax.jit(env.reset)(prng(r["keys"][0])))))
-        out, mut = guarded(env.reset, prng(r["keys"][0]))
-        return _show(f"eager reset({r['keys'][0]})", leaf_diff(exp, canon(out))) | _show("arguments", mut)
+        # the whole reset section in the order of the check (a failure caused by process-global Python state
+        # depends on the calls made before; the recorded comparison is marked with "*")
+        rc = 0
+        reset_j, reset_v = jax.jit(env.reset), jax.jit(jax.vmap(env.reset))
+
+        def mark(mode: str, keys: List[int]) -> str:
+            return "* " if (r["mode"] == mode and list(r["keys"]) == list(keys)) else "  "
+
+        for i, k in enumerate(KEY_WINDOW):
+            rc |= _show(f"{mark('jit', [k])}jit(reset)({k})",
+                        leaf_diff((t_index(root_s, i), t_index(root_ts, i)), canon(reset_j(prng(k)))))
+        for b in VMAP_RESET_BATCHES:
+            for start in range(0, len(KEY_WINDOW), b):
+                idx = np.arange(start, start + b) % len(KEY_WINDOW)
+                keys = [KEY_WINDOW[i] for i in idx]
+                got = canon(reset_v(jnp.stack([prng(k) for k in keys])))
+                rc |= _show(f"{mark('vmap', keys)}vmap(reset) batch {keys}",
+                            leaf_diff((t_index(root_s, idx), t_index(root_ts, idx)), got))
+        for k in (r["keys"] if r["mode"] == "eager" else KEY_WINDOW[:1]):
+            i = KEY_WINDOW.index(k)
+            out, mut = guarded(env.reset, prng(k))
+            rc |= _show(f"{mark('eager', [k])}eager reset({k})", leaf_diff((t_index(root_s, i), t_index(root_ts, i)), canon(out)))
+            rc |= _show("  arguments", mut)
+        return rc
     if kind == "step-mode":
         par, act, exp_s, exp_ts = [], [], [], []
         for m in r["members"]:
